@@ -158,7 +158,11 @@ def mvccStep (d : Db) (line : String) : Db × String :=
       let rts := d.nextTs - 1
       { d with readMark := (d.readMark.begin rts).done rts }) d
     (d, "ok")
-  | ["dropall"] => ({ d with lsm := Lsm.init d.opts.maxLevels }, "ok")
+  -- DropAll ends with `db.threshold.Clear(db.opt)`; in InMemory mode `db.opt.ValueThreshold` was
+  -- overwritten with MaxInt32 by Open, so from then on `valueThreshold()` is MaxInt32 (finding F18)
+  | ["dropall"] =>
+    let o := if d.opts.inMemory then { d.opts with threshold := 2147483647 } else d.opts
+    ({ d with lsm := Lsm.init d.opts.maxLevels, opts := o }, "ok")
   | ["dump"] => (d, fmtDump d.lsm)
   | ["discardts"] => (d, toString d.discardAtOrBelow)
   | _ => (d, "bad-op")
